@@ -58,7 +58,7 @@ CHECKS = {
         "a pointer-aware structural fingerprint of (AST, parameter map) before and after. (2) Determinism: every query translated three times; the 40 shortest structurally distinct "
         "queries in all ordered pairs against results from fresh processes (history independence). (3) Every interleaving of two and three concurrent translations sharing one kind mapper "
         "under the controlled scheduler (scheduling points: the mapper's methods), compared with the sequential result. (4) A free-running -race pass.",
-   note="Hang detection is a machinery guard (60 s then three isolated re-runs), no step counter exists without editing /repo. Interleaving points are the kind mapper's methods only.",
+   note="Hang detection is a machinery guard (60 s then three isolated re-runs), no step counter exists without editing /repo. Interleaving points are the kind mapper's methods only. Inputs also include function calls at every arity from none to two and projections that stage several paths (cyq.Calls); every query is translated eight times for the determinism part.",
    technique="bounded exhaustive enumeration + stateless schedule enumeration over a shared kind mapper",
    design_ref="4/C05, 10.5"),
  "C06": dict(level="exploration", engine="E3 enum",
@@ -66,7 +66,7 @@ CHECKS = {
         "each identifier of the query's own SQL, to the translator's internal name pool (n0, e0, s0, i0, pi0, path, depth ...) and to fresh names, parameter<->variable name collisions, "
         "permutations, and all injective maps of <= 2 / <= 3 variables into a name pool (607k / 3.8M renamings). Oracle: the token sequence is unchanged except top-level output aliases "
         "(which must be the renamed alias), equal parameter maps up to key renaming, and the renamed query translates iff the original does.",
-   note="Three failure classes are recorded as known findings (a WITH alias used as a CTE column name, a path variable named n<N>, a path variable named i<N> next to a quantifier).",
+   note="Three failure classes are recorded as known findings (a WITH alias used as a CTE column name, a path variable named n<N>, a path variable named i<N> next to a quantifier). Legal non-injective spellings (a name re-used after a WITH dropped or replaced it) are enumerated from six templates with name slots; two of their fillings are known findings.",
    technique="bounded exhaustive enumeration of consistent renamings with a token-level differential oracle",
    design_ref="4/C06, 10.5"),
  "C07": dict(level="exploration", engine="E3 enum (g4 grammar)",
@@ -90,7 +90,7 @@ CHECKS = {
    text="Every grammar derivation (as C07) and every corpus query parsed with DefaultCypherContext: an accepted text must contain no updating clause, procedure call or parameter at any "
         "depth (checked on the model by reflection and on the ANTLR parse tree), its translation must contain no data-modifying statement, and for every accepted query every insertion of "
         "an updating clause / CALL / parameter at every grammar position that admits one must be rejected.",
-   note="Trusted: the list of forbidden constructs derived from the grammar's rule names.",
+   note="Trusted: the list of forbidden constructs derived from the grammar's rule names. Also explored: every order of creating two default contexts and parsing one text with each, and an unfiltered parse followed by a default-context parse of the same text.",
    technique="bounded exhaustive grammar-derivation enumeration with an insertion-closure oracle",
    design_ref="4/C09, 10.5"),
  "C10": dict(level="exploration", engine="E3 enum (builder terms)",
@@ -98,7 +98,7 @@ CHECKS = {
         "updates; 74k cases quick) is emitted through every production path (format emitter, Neo4j query builder with its rewriter, v2 builder) and the text is parsed back by the real "
         "parser. Oracle: same boolean skeleton under all assignments of the leaves to {true,false,null} (grouping), equal leaves (operator, operands, literal type and value, parameters, "
         "kinds with their all-of / any-of reading), equal projections, ordering, patterns and updating clauses.",
-   note="Emission refused with an error is counted, not judged. Failure classes found here were repaired in /repo (fix: commits).",
+   note="Emission refused with an error is counted, not judged. Failure classes found here were repaired in /repo (fix: commits). Every criteria value is also used for two builders in a row; the second query must equal the first.",
    technique="bounded exhaustive enumeration of builder terms with a parse-back structural-meaning oracle",
    design_ref="4/C10, 10.5"),
  "C14": dict(level="exploration", engine="E3 enum (graphs)",
@@ -107,7 +107,7 @@ CHECKS = {
         "and two-step projections). Node set and count and adjacent-node sets per node x {out, in, both} are compared with a naive edge-list model; then Reach, BFSTree distances, Normalize, "
         "TSBFS/TSDFS terminal segments, MarshalSegment/UnmarshalSegment and SerializedSegment.ToSegment round trips of every maximal walk, and WriteZoneBFSTree -> BFSTreeFile.ReadEach for "
         "every zone subset (49M comparisons quick). Derived computations are judged only where the primitives agree, so a failure is attributed to its cause.",
-   note="Failure classes found here (DirectionBoth adjacency, BFS tree file framing and reading, SerializedSegment edge index) were repaired in /repo (fix: commits).",
+   note="Failure classes found here (DirectionBoth adjacency, BFS tree file framing and reading, SerializedSegment edge index) were repaired in /repo (fix: commits). Deletion sets that also hold ids the store does not have must give the same projection.",
    technique="bounded exhaustive enumeration of graphs x containers with a naive edge-list oracle",
    design_ref="4/C14, 10.5"),
  "C15": dict(level="model_checking", engine="E3 enum (graphs) + E2 bfs",
@@ -115,7 +115,7 @@ CHECKS = {
         "graph. Histories: explicit-state BFS over every sequence of queries (ReachOf, ReachSliceOf, OrReach, XorReach, CanReach for all node pairs, both directions) to the depth bound on a "
         "real ReachabilityCache per graph x cache capacity; canonical state = complete state of both SIEVE caches (queue order, visited bits, hand, cached bitmaps by content and identity); "
         "every answer is compared with a plain BFS of the original graph (336k states quick).",
-   note="The defect found here (incomplete reach cached) was repaired in /repo (fix: commit). Cache state is read through a verif-tagged overlay accessor. 'Reaches' is reflexive, OrReach/XorReach leave the queried node out, as documented.",
+   note="The defect found here (incomplete reach cached) was repaired in /repo (fix: commit). Cache state is read through a verif-tagged overlay accessor. 'Reaches' is reflexive, OrReach/XorReach leave the queried node out, as documented. The quick tier adds every labelled loop-free 5-node digraph with <= 5 edges (reach queries, two deep, capacities 1..3), the thorough tier every labelled 6-node digraph with <= 6 edges (capacities 2..3): the depth-first order of the reach computation follows the numeric order of ids.",
    technique="bounded exhaustive graph enumeration x explicit-state BFS over query histories against a naive BFS oracle",
    design_ref="4/C15, 10.5"),
  "C11": dict(level="exploration", engine="E3 enum",
@@ -125,7 +125,7 @@ CHECKS = {
         "enlarges the enumeration). Copy: fingerprint equality incl. unexported fields, pointer/slice/map disjointness by reflection, every in-place change of copy/original invisible to "
         "the other, unknown types must fail. Walk: CypherStructural visits exactly the reflection-derived child multiset with nested Enter/Exit, Cypher's visits are a subset, nil "
         "branches are reported, and for every callback index x {Consume, SetDone, SetError} the callback sequence and returned error match the prediction exactly (also for walk.PgSQL).",
-   note="Assumptions (recorded in the evidence): Literal.Value / Parameter.Value payloads are caller-owned (shared by reference is counted, not judged); graph.Kind and error values are immutable handles; a panic from Copy counts as an error path.",
+   note="Assumptions (recorded in the evidence): Literal.Value / Parameter.Value payloads are caller-owned (shared by reference is counted, not judged); graph.Kind and error values are immutable handles; a panic from Copy counts as an error path. Nil pointers stored in interface-typed child fields and slices of length 0 with spare capacity are part of the enumerated shapes.",
    technique="bounded exhaustive enumeration of model shapes (derived from the struct definitions) x visitor actions with a reflection-based oracle",
    design_ref="4/C11"),
  "C12": dict(level="model_checking", engine="E2 bfs",
@@ -183,7 +183,7 @@ CHECKS = {
         "resulting directory state a clean resume, every 'must refuse' variant (changed options, changed source, stray files, damaged fragments) and again every call x mode of the resume "
         "(depth 2) are run. Oracle: a manifest exists only for a complete dump; a checkpoint always parses and names intact fragments; committed fragments survive; a resume that returns nil "
         "leaves exactly the uninterrupted dump; every variant fails.",
-   note="Crash model = the process dies (dead shim: later calls have no effect), not power loss / fsync reordering. Count-preserving source replacement is reported, not judged (the snapshot check is count based by design).",
+   note="Crash model = the process dies (dead shim: later calls have no effect), not power loss / fsync reordering. Count-preserving source replacement is reported, not judged (the snapshot check is count based by design). A fully scrubbed dump is crashed before every call and resumed under another salt and without scrubbing (must be refused once a checkpoint exists).",
    technique="exhaustive crash/fault-point enumeration (depth 2) over intercepted file-system and database calls",
    design_ref="4/C19"),
  "C20": dict(level="fault_enumeration", engine="E4 vos + fakedb",
@@ -191,7 +191,7 @@ CHECKS = {
         "manifest field and structure edits, fragment edits, TAR entry and frame edits, ~90 hostile TAR entries (absolute, parent, volume, backslash, links, devices, GNU/PAX names, size tricks) "
         "and wrong/malformed keys are fed to Load, UnpackTar, UnpackEncryptedCollectionArchive and Unpack. Oracle: an error implies an empty target mutation log and no partial output; the "
         "sandbox outside the output directory is unchanged; success implies a result identical to the pristine run.",
-   note="Four known findings (partial output after a failed UnpackTar / UnpackEncryptedCollectionArchive, UnpackTar accepting a tampered fragment, Load(VerifyMetrics) failing only after writing) are listed in known_findings.json; any other failure has a different class. Time-of-check/time-of-use changes of the input are out of scope.",
+   note="Four known findings (partial output after a failed UnpackTar / UnpackEncryptedCollectionArchive, UnpackTar accepting a tampered fragment, Load(VerifyMetrics) failing only after writing) are listed in known_findings.json; any other failure has a different class. Time-of-check/time-of-use changes of the input are out of scope. Entry points include Unpack into an existing empty directory; the quick tier's byte substitutions are ^0x01, ^0x20, ^0x80, 0x00, 0xFF.",
    technique="exhaustive single-fault mutation enumeration of dump inputs with mutation-log, confinement and integrity oracles",
    design_ref="4/C20"),
 }
